@@ -94,7 +94,7 @@ Theorem C10_queue_in_order : forall g i dflt q0,
     nth_error (ns (spec_hist g h (init g))) i = Some s /\
     queue s = skipn (length h) q0 /\
     (h <> [] -> crdd s = RRdd (match nth_error q0 (length h - 1) with
-                              | Some (Some b) => parallelize b None
+                              | Some (Some b) => batch_rdd b
                               | Some None => empty_rdd            (* a queued None: an interval without data *)
                               | None => default_rdd dflt          (* only once the queue is exhausted *)
                               end)).
@@ -250,7 +250,7 @@ Proof. exact phased_program. Qed.
 Definition ex_inc (v : val) : val := match v with VInt x => VInt (x + 1) | _ => v end.
 Definition ex_even (v : val) : bool := match v with VInt x => Z.even x | _ => false end.
 Definition ex_prog : list call :=
-  [CSource (SQueue true None [Some [VInt 1; VInt 2]; Some []; Some [VInt 4]]);
+  [CSource (SQueue true None [Some ([VInt 1; VInt 2], None); Some ([], None); Some ([VInt 4], None)]);
    CMap 0 ex_inc; CFilter 0 ex_even; CUnion 1 2; CCount 3; CForeachRDD 3; CForeachRDD 4].
 Definition ex_env : nat -> listing := fun _ => [].
 Definition ex_hist : list (Z * (nat -> listing)) := [(1, ex_env); (2, ex_env); (3, ex_env); (5, ex_env)].
@@ -306,7 +306,7 @@ Proof. vm_compute. split; reflexivity. Qed.
 
 (* late registration: the source and one action are registered, one tick passes, then a map branch, a
    union with the source and a second action are registered; they take part from the next tick on *)
-Definition ex_p1 : list call := [CSource (SQueue true (Some [VInt 9]) [Some [VInt 1]; None; Some [VInt 3]]); CForeachRDD 0].
+Definition ex_p1 : list call := [CSource (SQueue true (Some ([VInt 9], None)) [Some ([VInt 1], None); None; Some ([VInt 3], None)]); CForeachRDD 0].
 Definition ex_p2 : list call := [CMap 0 ex_inc; CUnion 0 2; CForeachRDD 3].
 Definition ex_G1 := fst (expand ex_p1).
 Definition ex_G2 := fst (expand (ex_p1 ++ ex_p2)).
